@@ -1,7 +1,7 @@
 # Per-property configuration of ./check: harness source, stages per tier, evidence texts.
 PROPS = {}
 NOT_APPLICABLE = {}
-HOOK_COMMITS = []
+HOOK_COMMITS = []  # filled at the bottom of this file
 
 PROPS["C20"] = {
     "source": "c20_base64.cc",
@@ -230,5 +230,36 @@ PROPS["C13"] = {
     "thorough": {"stages": [{"kind": "replay"},
                             {"kind": "enum", "scope": "all schedules of 1x1..1x3, 2x1, 2x2, 3x1 with 0 and 1 early poll (capped at 3000000 schedules per partition)",
                              "jobs": _enum_jobs([(1, 1, 0), (1, 1, 1), (1, 2, 0), (1, 2, 1), (1, 3, 0), (1, 3, 1), (2, 1, 0), (2, 1, 1), (2, 2, 0), (3, 1, 0)], 3000000)},
+                            {"kind": "rc", "procs": 8, "cases": 100000, "maxlen": 300}]},
+}
+
+_C12_CFGS = [(s, r, v) for s in range(4) for r in (0, 1) for v in (0, 1)]
+PROPS["C12"] = {
+    "source": "c12_promise_threads.cc",
+    "level": "exploration",
+    "fuzz": False,
+    "rule": ("the case is a thread schedule over a scenario: S1 settle(P) || P.then(f,r); S2 settle(P) || P.then(f1);P.then(f2); S3 P2=P.then(f) attached beforehand, settle(P) || P2.then(g) "
+             "(attach to the derived promise while the parent's continuation settles it); S4 settle(P) || P2=P.then(f);P2.then(g); S5 = S3 with f returning a promise settled by a third thread; "
+             "each x {fulfil, reject} x {Promise<int>, Promise<void>}. Real threads run under a cooperative scheduler that switches only at the hook points in async.h (unlocked state check, "
+             "lock acquisition, state store, each continuation-walk step, state test / append in then(), run-count test, derived store / derived walk). Depth-first enumeration of ALL schedules "
+             "for S1-S4 (quick) and S5 (bounded), plus generated schedules from the choice stream. Oracle per schedule: every continuation ran exactly once on the right branch with the settled "
+             "value / exception, no deadlock, no sanitizer report. Non-trivial = a context switch strictly inside the attacher's state-test..append window or inside the settler's store-and-walk; "
+             "distinct = hash of (scenario, choice string)."),
+    "engine": "cooperative scheduler (harness/common/sched.h) + rapidcheck",
+    "technique": "systematic schedule enumeration (stateless depth-first search over a harness-owned cooperative scheduler at the hook points in async.h) plus rapidcheck-generated schedules; oracle = exactly-once / right-outcome counters per continuation, deadlock detection, ASan",
+    "level_text": "Every sequentially consistent interleaving at hook-point granularity is executed for scenarios S1-S4 (exhaustive: true refers to those); S5 is enumerated up to a cap and sampled.",
+    "level_note": "Sequentially consistent interleavings at hook-point granularity only; the lock hook never changes who may take a lock, only where a thread waits. Needs the PISTACHE_VERIF_HOOKS points in async.h. Data-race freedom in the C++ memory-model sense is only indirectly covered (ASan on iterator invalidation).",
+    "assumptions": ["the hook points cover every access to promise-core state shared between the settling and the attaching thread"],
+    "quick": {"stages": [{"kind": "replay"},
+                         {"kind": "enum", "scope": "all schedules of S1-S4 x {fulfil,reject} x {int,void}",
+                          "jobs": _enum_jobs(_C12_CFGS, 2000000, depth=1, base=3)},
+                         {"kind": "enum", "claims_exhaustive": False, "scope": "S5 x {fulfil,reject}: first 15000 schedules (depth-first order) of each of 3 partitions",
+                          "jobs": _enum_jobs([(4, 0, 0), (4, 1, 0)], 15000, depth=1, base=3)},
+                         {"kind": "rc", "procs": 4, "cases": 6000, "maxlen": 200}]},
+    "thorough": {"stages": [{"kind": "replay"},
+                            {"kind": "enum", "scope": "all schedules of S1-S4 x {fulfil,reject} x {int,void}",
+                             "jobs": _enum_jobs(_C12_CFGS, 20000000, depth=1, base=3)},
+                            {"kind": "enum", "claims_exhaustive": False, "scope": "S5 x {fulfil,reject}: up to 1500000 schedules per partition (9 partitions each)",
+                             "jobs": _enum_jobs([(4, 0, 0), (4, 1, 0)], 1500000, depth=2, base=3)},
                             {"kind": "rc", "procs": 8, "cases": 100000, "maxlen": 300}]},
 }
